@@ -28,8 +28,8 @@ def one_case(r, max_cells):
     return dom, cl, kind, order, total
 
 
-def run_impl(model, pots, sched, scale=None):
-    cv = gmgen.impl_potentials(pots, scale)
+def run_impl(model, pots, sched, scale=None, offsets=None):
+    cv = gmgen.impl_potentials(pots, scale, offsets)
     model.message_order = [(tuple(a), tuple(b)) for a, b in sched]
     with np.errstate(all='ignore'):
         mu = model.belief_propagation(cv)
@@ -44,7 +44,19 @@ def run(res, drv, tier, seed):
     cases, reqs = [], []
     for ci in range(n):
         dom, cl, kind, order, total = one_case(r, max_cells)
-        model = gmgen.build_model(dom, cl, float(total), order)
+        form = r.choice(gmgen.ORDER_FORMS) if isinstance(order, list) and r.random() < 0.5 else None
+        if ci % 10 == 3:
+            # directed: a chordless cycle of 4-6 attributes (fill-in is needed whatever the order) with a GIVEN order in a one-shot spelling
+            n_ = r.randint(4, 6)
+            A_ = r.sample(gmgen.NAMES, n_)
+            dom = [[a, r.choice([2, 2, 3])] for a in A_]
+            cl = [r.sample([A_[i], A_[(i + 1) % n_]], 2) for i in range(n_)]
+            r.shuffle(cl)
+            kind, order = 'cycle', r.sample(A_, n_)
+            form = r.choice(['iter', 'generator', 'reversed', 'map'])
+        if form:
+            res.count('given order passed as ' + form)
+        model = gmgen.build_model(dom, cl, float(total), order, form)
         pots = gmgen.gen_potentials(r, model)
         sched = gmgen.random_linear_extension(r, model.message_order)
         shift = None
@@ -133,6 +145,9 @@ def run(res, drv, tier, seed):
     history_stream(res, tier, seed)
 
 
+OFFSETS = [30.0, 300.0, 690.0, 700.0, 705.0, 708.0, 709.0, 709.5, 709.7, 710.0, 712.0, 720.0, 744.0, 745.0, 746.0, 800.0, 1e3, 1e4, 1e6]     # beyond 1e6 the addition itself rounds away the potential (ulp(1e9) = 1.2e-7)
+
+
 def range_stream(res, drv, tier, seed):
     """potentials of huge magnitude: outputs must stay finite and agree with the scale-free answer structure"""
     r = rng(seed, 'C01-range')
@@ -147,6 +162,19 @@ def range_stream(res, drv, tier, seed):
         canon = {'dom': dom, 'cliques': cl, 'scale': scale, 'pots': gmgen.enc_pots(pots)}
         res.case(canon, True)
         res.count('range stream')
+        # the same unit-scale potentials with one constant added per clique, the constants chosen around the edge of the range of
+        # exp() (log(DBL_MAX) = 709.78, log(min subnormal) = -745.1) and far outside it: the answer must not change at all
+        base = run_impl(model, pots, sched)
+        for _ in range(2):
+            offs = [r.choice(OFFSETS) * r.choice([1, 1, -1]) + r.choice([0.0, 0.0, r.uniform(-2, 2)]) if r.random() < 0.8 else 0.0 for _ in pots]
+            shifted = run_impl(model, pots, sched, None, offs)
+            res.count('offset stream')
+            for c, (attrs_b, vb) in base.items():
+                vs = shifted[c][1]
+                if not all(math.isfinite(v) for v in vs) or not all(close(a, b, 1e-7, 1e-9) for a, b in zip(vb, vs)):
+                    res.violation('failing-input', f'belief_propagation: adding the constants {offs} to the log-potentials changes the marginal on '
+                                  f'{list(c)} from {vb[:6]} to {vs[:6]}', {'request': dict(canon, offsets=offs), 'observed': vs}, key='bp:offset')
+                    return
         joint = gmgen.brute_joint(dom, pots)
         if sum(joint.values()) == 0:
             continue
